@@ -277,7 +277,38 @@ def run_pipe1(case):
     return res
 
 
-KINDS = {"kernel": run_kernel, "hole": run_hole, "pipe": run_pipe, "pipe1": run_pipe1}
+def run_session(case):
+    """All operation sequences (iterate / save to a slot / load a slot) on ONE sampler object, coherence monitors armed,
+    plus an accessor oracle (flattened histories and posterior() must consist of whole records) after every operation."""
+    from mc import session
+
+    res = Res()
+    cfg = dict(case["cfg"])
+    if case.get("only"):
+        seqs = [tuple(case["only"])]
+    elif case.get("patterns"):
+        seqs = session.patterns()[case["patterns"][0]::case["patterns"][1]]
+    else:
+        seqs = list(session.sequences(case["depth"], first=case.get("first")))
+    for seq in seqs:
+        s = session.Session(cfg, case["base"], [coherent_monitor("session")])
+        s.run(seq, after_op=session.accessor_oracle)
+        res.evals += 1
+        res.states += len(seq)
+        res.trans += s.p.events
+        res.traces += 1
+        cc = dict(case, only=list(seq))
+        if s.err is not None:
+            res.bump("aborted_sessions")
+            res.bump("aborted:" + type(s.err).__name__)
+        for key, msg, det in s.p.viol[:2]:
+            res.violate(key, msg + f" [one sampler object, operations after 3 iterations: {' '.join(seq)}; cfg={cfg}]", cc)
+        res.outcome(("session", tuple(sorted((k, repr(v)) for k, v in cfg.items())), seq), nontrivial=any(o[0] == "L" for o in seq))
+    res.sample({"cfg": cfg, "depth": case["depth"], "sequences": len(seqs), "example": list(seqs[len(seqs) // 2]) if seqs else None}, cap=1)
+    return res
+
+
+KINDS = {"session": run_session, "kernel": run_kernel, "hole": run_hole, "pipe": run_pipe, "pipe1": run_pipe1}
 
 FACTORS = [
     ("sample", ["tpcn", "rwm"]),
@@ -317,6 +348,18 @@ def plan(ctx):
         for blobs in (False, True):
             unit.append({"kind": "hole", "n": n, "blobs": blobs})
     ctx.explore("unit", unit)
+    sess = []
+    for cfg in (dict(n_particles=8, d=1, ess_ratio=1.0, n_total=10 ** 6, eval="blobs", clustering=False, resample="mult"),
+                dict(n_particles=8, d=2, ess_ratio=1.0, n_total=10 ** 6, eval="scalar", clustering=True, resample="syst", sample="rwm")):
+        for first in itertools.product(["S", "V0", "V1", "L0", "L1"], repeat=2):
+            from mc import session as _sess
+            if not _sess.valid(first) or first[0] == "V1":  # by symmetry of the two slots the first save may be taken to slot 0
+                continue
+            sess.append({"kind": "session", "cfg": cfg, "base": ctx.seed, "depth": 7 if th else 5, "first": list(first)})
+        for sh in range(8):
+            sess.append({"kind": "session", "cfg": cfg, "base": ctx.seed, "depth": 9, "patterns": [sh, 8]})
+    ctx.explore("session-sequences", sess)
+    ctx.bounds.update({"session": {"alphabet": ["S (iterate)", "V0/V1 (save_state to slot)", "L0/L1 (load_state from slot)"], "depth": "all sequences to depth 7 (thorough) / 5 (quick) + 57 longer save/branch/roll-back patterns (length <= 9)", "warm_iterations": 3}})
     rows = lattice.covering_array(FACTORS, strength=3 if th else 2, seed=ctx.seed)
     cov, tot = lattice.count_covered(rows, FACTORS, 3 if th else 2)
     ctx.bounds.update({"configs": len(rows), "covering_strength": 3 if th else 2, "tuples_covered": f"{cov}/{tot}", "max_deviations": 2 if th else 1,
